@@ -37,10 +37,16 @@ def run_seed(sid):
         p = subprocess.run(["python3", os.path.join(V, "run.py"), "unit"] + [re.escape(u["id"]) for u in us],
                            env=env, capture_output=True, text=True)
         out = {}
+        cur = None
         for line in p.stdout.splitlines():
             m = re.match(r"(\S+)\s+(proved|failed|undecided)\s", line)
             if m:
-                out[m.group(1)] = m.group(2)
+                cur = m.group(1)
+                out[cur] = m.group(2)
+            # a known-finding variant with OTHER failed obligations than the recorded one is a new violation
+            m = re.match(r"\s+KF (\S+) (present|absent) (\S+) \[(.*)\]", line)
+            if m and m.group(4).strip() and out.get(cur) == "proved":
+                out[cur] = "failed"
         return out
     own = go(sel)
     res["own_units"] = own
